@@ -78,6 +78,8 @@ Inductive action :=
 | ATick (i : Z) (now : Z) (orcs : list oracle)          (* Supervisor TICK at node i *)
 | ADeliver (i j : Z) (now : Z) (orcs : list oracle)     (* node i receives the oldest publication of j *)
 | AHandshake (i : Z) (now : Z)                          (* node i's proxy serves its oldest CHECK_INSTANCE request *)
+| AHandshakeLate (i : Z) (ts now : Z)                   (* the same, for a request whose handling STARTED at ts <= now
+                                                           (slow XML-RPCs): the notifications carry the start timestamp *)
 | ANotify (i : Z) (now : Z) (orcs : list oracle)        (* node i processes its oldest local notification *)
 | ACrash (i : Z)
 | ARestart (i : Z) (fresh : node)
@@ -155,6 +157,19 @@ Definition cstep (c : cluster) (a : action) : result cluster :=
               if cn_up cn then
                 (* no proxy for an instance regarded ISOLATED: the request is dropped *)
                 let evs := if not_isolated (cn_node cn) j then handshake_events c i j (cn_node cn) now else [] in
+                Ok (set_node c i (mkCnode (cn_node cn) true (cn_cnt cn) (cn_inbox cn ++ evs) rest))
+              else Ok c
+          | [] => Ok c
+          end
+      | None => Ok c
+      end
+  | AHandshakeLate i ts now =>
+      match aget i (c_nodes c) with
+      | Some cn =>
+          match cn_pending cn with
+          | j :: rest =>
+              if cn_up cn then
+                let evs := if not_isolated (cn_node cn) j then handshake_events c i j (cn_node cn) ts else [] in
                 Ok (set_node c i (mkCnode (cn_node cn) true (cn_cnt cn) (cn_inbox cn ++ evs) rest))
               else Ok c
           | [] => Ok c
